@@ -70,9 +70,22 @@ def _out(n):
     return [n.version, n._value, n._prefixlen]
 
 
+def _kw(implicit_prefix, version, flags):
+    """keyword arguments of the constructor; an argument that has its documented default value is left out (so that the
+    defaults themselves are exercised) - the same call either way as far as the property is concerned"""
+    kw = {}
+    if implicit_prefix is not False:
+        kw["implicit_prefix"] = implicit_prefix
+    if version is not None:
+        kw["version"] = version
+    if flags != 0:
+        kw["flags"] = flags
+    return kw
+
+
 def impl_init(a, implicit_prefix, version, flags):
     import netaddr
-    return _out(netaddr.IPNetwork(_mk_arg(a), implicit_prefix=implicit_prefix, version=version, flags=flags))
+    return _out(netaddr.IPNetwork(_mk_arg(a), **_kw(implicit_prefix, version, flags)))
 
 
 def impl_parse(ver, a, implicit_prefix, flags):
@@ -96,7 +109,7 @@ def _notation(ver, v, p, kind):
 
 def impl_notation(ver, v, p, kind, implicit_prefix, version, flags):
     import netaddr
-    return _out(netaddr.IPNetwork(_notation(ver, v, p, kind), implicit_prefix=implicit_prefix, version=version, flags=flags))
+    return _out(netaddr.IPNetwork(_notation(ver, v, p, kind), **_kw(implicit_prefix, version, flags)))
 
 
 def impl_str(ver, v, p):
